@@ -193,6 +193,14 @@ pub fn generate(tier: &str, seed: u64, out: &Path, nshards: usize, replay: Optio
     };
     let _ = replay; // programs are not reconstructible from a registry: replay re-runs the generator stream
     for (n, p) in crate::corpus::programs() {
+        // `Box<Compact<T>>` fields are outside the conventions of the expected-item specification
+        // (`field_conv_okb` of Model/ProgramSkel.v: a compact is written `Compact<T>` or `Cow<Compact<T>>`,
+        // not under Box; the C05 theorems carry that hypothesis): the generator prints
+        // `#[codec(compact)] Box<T>`, the specification would say `Box<Compact<T>>` - both wire-equal.
+        // The program is exercised by C01 / C02 / C09, not here.
+        if n == "boxed-compact" {
+            continue;
+        }
         push(&format!("corpus:{n}"), &p, None, &mut shards, &mut meta);
         let mut s = SettingsSpec::default();
         s.codec = false;
